@@ -231,3 +231,7 @@ pub(crate) fn delete_unverified_block(
         }
     }
 }
+
+/// verification hook (off unless built with `--cfg ckb_verif`): name the orphan pool for external harnesses
+#[cfg(ckb_verif)]
+pub use utils::orphan_block_pool::OrphanBlockPool;
